@@ -122,6 +122,13 @@ Goal exists arrivals pd v,
     rv_dom v = true /\ rv_known v = None /\ rv_imported v = true.
 Proof. exact Props.C14.C14_imports_complete_nonvacuous. Qed.
 Print Assumptions Props.C14.C14_imports_complete_nonvacuous.
+Goal one_generated_name (Proofs.C14Main.c14_infos uc_exec [] Proofs.C14Witness.ws_two_names) (lit "a") (lit "A2") = false /\
+  renamed_in (Proofs.C14Main.c14_infos uc_exec [] Proofs.C14Witness.ws_two_names) (lit "a") (lit "A2") = lit "A2" /\
+  Proofs.C14Witness.w_run (fun l => l) (fun l => l) Proofs.C14Witness.ws_two_names (lit "my_crate") =
+    Some ([(lit "a", lit "A2Other")], [(lit "A2", lit "a", false, None, false)]) /\
+  Proofs.C14Witness.w_field_types Proofs.C14Witness.ws_two_names (lit "my_crate") = [RSimple (lit "A2Other")].
+Proof. exact Props.C14.C14_two_generated_names_outside_domain. Qed.
+Print Assumptions Props.C14.C14_two_generated_names_outside_domain.
 Goal renamed_in (Proofs.C14Main.c14_infos uc_exec [] Proofs.C14Witness.ws_glob_renamed) (lit "a") (lit "A2") = lit "A2Renamed" /\
   exists arrivals pd v,
     parse_workspace uc_exec [] [] (fun l => l) Proofs.C14Witness.ws_glob_renamed = Ok arrivals /\
@@ -143,14 +150,6 @@ Goal (forall (ct : crate_types) (own : str) (l1 l2 : list imported),
      crate_imports hc cs cn (with_imports pd (ho (p_imports pd))) = crate_imports hc cs cn pd).
 Proof. exact Props.C14.C14_import_list_order_irrelevant. Qed.
 Print Assumptions Props.C14.C14_import_list_order_irrelevant.
-Goal exists arrivals pd v,
-    parse_workspace uc_exec [] [] (fun l => l) Proofs.C14Witness.ws_renamed = Ok arrivals /\
-    In (lit "my_crate", pd) (multi_crates (fun l => l) arrivals) /\
-    In v (judge_crate (Proofs.C14Main.c14_infos uc_exec [] Proofs.C14Witness.ws_renamed) [] (lit "my_crate")
-            (scoped_pairs (crate_imports (fun l => l) (multi_crates (fun l => l) arrivals) (lit "my_crate") pd))) /\
-    rv_known v = Some "C14-renamed-import" /\ rv_imported v = false.
-Proof. exact Props.C14.C14_renamed_import_refuted. Qed.
-Print Assumptions Props.C14.C14_renamed_import_refuted.
 Goal exists arrivals pd v,
     parse_workspace uc_exec [] [] (fun l => l) Proofs.C14Witness.ws_same_name = Ok arrivals /\
     In (lit "my_crate", pd) (multi_crates (fun l => l) arrivals) /\
@@ -179,6 +178,25 @@ Goal Proofs.C14Witness.w_run (fun l => l) (fun l => l) Proofs.C14Witness.ws_glob
     Some ([(lit "a", lit "A1"); (lit "a", lit "A2Renamed"); (lit "a", lit "A3")], [(lit "A1", lit "a", true, None, true)]).
 Proof. exact Props.C14.C14_glob_order_fixed. Qed.
 Print Assumptions Props.C14.C14_glob_order_fixed.
+Goal renamed_in (Proofs.C14Main.c14_infos uc_exec [] Proofs.C14Witness.ws_renamed) (lit "a") (lit "A2") = lit "A2Renamed" /\
+  exists arrivals pd v,
+    parse_workspace uc_exec [] [] (fun l => l) Proofs.C14Witness.ws_renamed = Ok arrivals /\
+    In (lit "my_crate", pd) (multi_crates (fun l => l) arrivals) /\
+    In v (judge_crate (Proofs.C14Main.c14_infos uc_exec [] Proofs.C14Witness.ws_renamed) [] (lit "my_crate")
+            (scoped_pairs (crate_imports (fun l => l) (multi_crates (fun l => l) arrivals) (lit "my_crate") pd))) /\
+    rv_name v = lit "A2" /\ rv_from v = lit "a" /\ rv_dom v = true /\ rv_known v = None /\ rv_imported v = true.
+Proof. exact Props.C14.C14_renamed_import_fixed. Qed.
+Print Assumptions Props.C14.C14_renamed_import_fixed.
+Goal Proofs.C14Witness.w_run (fun l => l) (fun l => l) Proofs.C14Witness.ws_renamed (lit "my_crate") =
+    Some ([(lit "a", lit "A2Renamed")], [(lit "A2", lit "a", true, None, true)]) /\
+  Proofs.C14Witness.w_run (fun l => l) (fun l => l) Proofs.C14Witness.ws_renamed_path (lit "my_crate") =
+    Some ([(lit "a", lit "A2Renamed")], [(lit "A2", lit "a", true, None, true)]) /\
+  Proofs.C14Witness.w_field_types Proofs.C14Witness.ws_renamed (lit "my_crate") = [RSimple (lit "A2Renamed")] /\
+  Proofs.C14Witness.w_import_text Proofs.C14Witness.ws_renamed (lit "my_crate") = (lit "import { A2Renamed } from ""./a"";" ++ [10%N; 10%N])%list /\
+  Proofs.C14Witness.w_field_types Proofs.C14Witness.ws_renamed_path (lit "my_crate") = [RSimple (lit "A2Renamed")] /\
+  Proofs.C14Witness.w_import_text Proofs.C14Witness.ws_renamed_path (lit "my_crate") = (lit "import { A2Renamed } from ""./a"";" ++ [10%N; 10%N])%list.
+Proof. exact Props.C14.C14_renamed_import_fixed_exact. Qed.
+Print Assumptions Props.C14.C14_renamed_import_fixed_exact.
 Goal Proofs.C14Witness.w_run (fun l => l) (fun l => l) Proofs.C14Witness.ws_glob_const (lit "my_crate") =
     Some ([(lit "k", lit "K1")], [(lit "K1", lit "k", true, None, true)]) /\
   Proofs.C14Witness.w_run (@rev _) (fun l => l) Proofs.C14Witness.ws_glob_const (lit "my_crate") =
